@@ -94,6 +94,30 @@ def has_bignum_encoded_data(term):
     return '"enc": "big"' in json.dumps(term)
 
 
+def ed25519_edge_class(term):
+    """for a saturated verifyEd25519Signature on constants: which libsodium-only acceptance rule
+    the arguments touch ("" if none): exact attribution for the known-finding key"""
+    args = []
+    t = term
+    while t[0] == "app":
+        args.append(t[2])
+        t = t[1]
+    if t != ["builtin", "verifyEd25519Signature"] or len(args) != 3:
+        return ""
+    pk, _msg, sig = [a[2] if a[0] == "con" and a[1] == "bytestring" else None for a in reversed(args)]
+    if pk is None or sig is None or len(pk) != 64 or len(sig) != 128:
+        return ""
+    pkb, sigb = bytes.fromhex(pk), bytes.fromhex(sig)
+    tags = []
+    if (int.from_bytes(pkb, "little") & ((1 << 255) - 1)) >= B._P25519:
+        tags.append("non-canonical-key")
+    if B._ed_small_order(pkb):
+        tags.append("small-order-key")
+    if B._ed_small_order(sigb[:32]):
+        tags.append("small-order-R")
+    return "|" + "+".join(tags) if tags else ""
+
+
 def head_builtin(term):
     """the builtin at the head of an application spine (through forces), if any"""
     t = term
@@ -153,6 +177,7 @@ def classify(term, lang, pv, rust, family):
             if T.term_json_equal(rust["ok"], cek.discharge(mine["value"], _stop_at_constr_case=True)):
                 return [("C03", "C03|readback|no-substitution-under-constr/case", f"{cfg} rust={json.dumps(rust['ok'])[:200]} oracle={json.dumps(mine['ok'])[:200]}")]
             extra = "|bignum-encoded-data" if has_bignum_encoded_data(term) else ""
+            extra += ed25519_edge_class(term)
             return [(base, f"{base}|{hb}|value-differs|{int_class(term)}{extra}", f"{cfg} rust={json.dumps(rust['ok'])[:300]} oracle={json.dumps(mine['ok'])[:300]}")]
         # ---- C05 accounting identity: cost = startup + steps x unit + sum(charged builtin costs)
         if "builtins" in rust and "cost" in rust:
